@@ -1337,6 +1337,9 @@ impl DbInner {
 		self.log_worker_wait.signal();
 		self.commit_worker_wait.signal();
 		self.cleanup_worker_wait.signal();
+		// The commit worker may be waiting for log cleanup in `enact_logs`; the cleanup worker
+		// can leave its loop without another cleanup pass, so wake that wait as well.
+		self.cleanup_queue_wait.signal();
 	}
 
 	fn kill_logs(&self, db: &Arc<DbInner>) -> Result<()> {
